@@ -290,12 +290,10 @@ func (s *Service) handleBatchPickup(msg service.DIDCommMsg, myDID, theirDID stri
 		return fmt.Errorf("batch pick up put inbox: %w", err)
 	}
 
-	msgs = msgs[0:end]
-
 	batch := Batch{
 		Type:     BatchMsgType,
 		ID:       msg.ID(),
-		Messages: msgs,
+		Messages: msgs[0:end],
 	}
 
 	msgBytes, err := json.Marshal(batch)
@@ -308,7 +306,22 @@ func (s *Service) handleBatchPickup(msg service.DIDCommMsg, myDID, theirDID stri
 		return fmt.Errorf("parse batch into didcomm msg map: %w", err)
 	}
 
-	return s.outbound.SendToDID(msgMap, myDID, theirDID)
+	err = s.outbound.SendToDID(msgMap, myDID, theirDID)
+	if err != nil {
+		// The batch was already removed from the inbox above: put it back, otherwise a failed delivery loses it.
+		errRestore := outbox.EncodeMessages(msgs)
+		if errRestore == nil {
+			errRestore = s.putInbox(theirDID, outbox)
+		}
+
+		if errRestore != nil {
+			return fmt.Errorf("batch pickup send: %w (restoring the inbox failed: %s)", err, errRestore.Error())
+		}
+
+		return fmt.Errorf("batch pickup send: %w", err)
+	}
+
+	return nil
 }
 
 func (s *Service) handleBatch(msg service.DIDCommMsg) error {
